@@ -301,12 +301,20 @@ def rule_frame(repo):
         if not (isinstance(val, ast.BinOp) and isinstance(val.op, ast.BitOr)):
             r.bad(m, 'Bits.__setitem__', cons, "write must have the shape (old & ~M) | (new << pos)", st.lineno)
             return
+        def res(e):
+            # a helper local (`clear_mask = ~(...)`, `ins = (v & m) << start`) reads as its expression; the old value keeps its name
+            while isinstance(e, ast.Name) and not old_value(e, st):
+                rv = reaching_value(e.id, st)
+                if rv is None:
+                    break
+                e = rv
+            return e
         keep = ins = None
-        for a, b in ((val.left, val.right), (val.right, val.left)):
+        for a, b in ((res(val.left), res(val.right)), (res(val.right), res(val.left))):
             if isinstance(a, ast.BinOp) and isinstance(a.op, ast.BitAnd):
-                for x, y in ((a.left, a.right), (a.right, a.left)):
+                for x, y in ((a.left, res(a.right)), (a.right, res(a.left))):
                     if old_value(x, st) and isinstance(y, ast.UnaryOp) and isinstance(y.op, ast.Invert):
-                        keep, ins = y.operand, b
+                        keep, ins = res(y.operand), b
         if keep is None:
             r.bad(m, 'Bits.__setitem__', cons, "the untouched bits are not preserved as (old & ~M)", st.lineno)
             return
@@ -886,6 +894,7 @@ MUTANTS = [
 ]
 
 EQUIV = [
+    _m('setitem-clear-mask-local', "        self._uint = (sv & (~((1 << stop) - (1 << start)))) | \\\n                     ((v._uint & _upper[slice_nbits]) << start)", "        clear_mask = ~((1 << stop) - (1 << start))\n        self._uint = (sv & clear_mask) | \\\n                     ((v._uint & _upper[slice_nbits]) << start)"),
     _m('setitem-merge-value-hoisted', "        self._uint = (sv & (~((1 << stop) - (1 << start)))) | \\\n                     ((v._uint & _upper[slice_nbits]) << start)", "        ins = (v._uint & _upper[slice_nbits]) << start\n        self._uint  = sv & ~((1 << stop) - (1 << start))\n        self._uint |= ins", ),
     _m('zext-guard-clause', "  if isinstance( new_width, int ):\n    assert new_width >= value.nbits\n    return Bits( new_width, value.uint() )\n  else:\n    assert issubclass( new_width, Bits )\n    return new_width( value.uint() )\n",
        "  if not isinstance( new_width, int ):\n    assert issubclass( new_width, Bits )\n    return new_width( value.uint() )\n\n  assert new_width >= value.nbits\n  return Bits( new_width, value.uint() )\n", file=HELPERS),
